@@ -68,3 +68,34 @@ mk buildloop-match-to-iflet src/func/vbuilder.rs "                            So
                                     \"Unsolvable shard; trying again with a different seed...\"
                                 ));
                             }"
+mk fill-other-mask-idiom src/bits/bit_vec.rs "        let word_value = if value { !0 } else { 0 };
+        bits[..full_words].iter_mut().for_each(|x| *x = word_value);
+        if residual != 0 {
+            let mask = (1 << residual) - 1;" "        let word_value = if value { !0 } else { 0 };
+        bits[..full_words].iter_mut().for_each(|x| *x = word_value);
+        if residual != 0 {
+            let mask = usize::MAX >> (BITS - residual);"
+mk apply-len-eq-zero src/bits/bit_field_vec.rs "        if self.is_empty() {
+            return;
+        }
+        let bit_width = self.bit_width();
+        if bit_width == 0 {
+            return;
+        }" "        let bit_width = self.bit_width();
+        if self.len() == 0 || bit_width == 0 {
+            return;
+        }"
+mk iter-explicit-full-width src/bits/bit_field_vec.rs "            let res = self.window & self.vec.mask;
+            // bit_width might be W::BITS
+            self.window = self.window.checked_shr(bit_width as u32).unwrap_or(W::ZERO);
+            return res;" "            let res = self.window & self.vec.mask;
+            if bit_width != W::BITS {
+                self.window >>= bit_width;
+            } else {
+                self.window = W::ZERO;
+            }
+            return res;"
+mk copy-rename-residual src/bits/bit_field_vec.rs "            let residual =
+                bit_len - (W::BITS - src_bit) - (dst_last_word - dst_first_word - 1) * W::BITS;
+            let mask = W::MAX >> (W::BITS - residual);" "            let rest = bit_len - (dst_last_word - dst_first_word - 1) * W::BITS - (W::BITS - src_bit);
+            let mask = W::MAX >> (W::BITS - rest);"
